@@ -372,6 +372,78 @@ func permuteBlocks(h *History, res []OpResult, r *Rng) (*History, []int, bool) {
 	return n, perm, moved
 }
 
+// moveScopes returns a linearisation in which only the scope creations move,
+// across registrations *and* Invokes: to the very beginning (early) or as late
+// as possible (just before the first operation that needs the scope). The
+// creations keep their relative order, so scope indices are unchanged.
+func moveScopes(h *History, early bool) (*History, []int, bool) {
+	var scopeOps []int
+	for i, o := range h.Ops {
+		if o.Kind == OpScope {
+			scopeOps = append(scopeOps, i)
+		}
+	}
+	if len(scopeOps) == 0 {
+		return nil, nil, false
+	}
+	// pos[k]: the creation of scope k+1 is emitted right before primary op pos[k]
+	pos := make([]int, len(scopeOps))
+	if early {
+		for k := range pos {
+			pos[k] = 0
+		}
+	} else {
+		for k := len(scopeOps) - 1; k >= 0; k-- {
+			first := len(h.Ops)
+			for i, o := range h.Ops {
+				if i == scopeOps[k] {
+					continue
+				}
+				if o.Scope == k+1 && i < first {
+					first = i
+				}
+			}
+			if k+1 < len(pos) && pos[k+1] < first {
+				first = pos[k+1]
+			}
+			if first < scopeOps[k] {
+				first = scopeOps[k] // never earlier than where it was (cannot happen: uses follow creation)
+			}
+			pos[k] = first
+		}
+	}
+	n := h.Clone()
+	n.Ops = nil
+	var perm []int
+	k := 0
+	moved := false
+	for i := 0; i <= len(h.Ops); i++ {
+		for k < len(scopeOps) && pos[k] <= i {
+			if len(n.Ops) != scopeOps[k] {
+				moved = true
+			}
+			n.Ops = append(n.Ops, h.Ops[scopeOps[k]])
+			perm = append(perm, scopeOps[k])
+			k++
+		}
+		if i < len(h.Ops) && h.Ops[i].Kind != OpScope {
+			n.Ops = append(n.Ops, h.Ops[i])
+			perm = append(perm, i)
+		}
+	}
+	// ErrFrom of Visualize ops refers to op indices: remap
+	inv := make([]int, len(h.Ops))
+	for j, i := range perm {
+		inv[i] = j
+	}
+	for j := range n.Ops {
+		if n.Ops[j].Kind == OpVisualize && n.Ops[j].ErrFrom > 0 {
+			n.Ops[j].ErrFrom = inv[n.Ops[j].ErrFrom-1] + 1
+		}
+	}
+	return n, perm, moved
+}
+
 func evalC16(h *History) *Outcome {
 	hc := AppendCensus(h, 24)
 	c := RunChecked(hc)
@@ -429,6 +501,35 @@ func evalC16(h *History) *Outcome {
 		}
 		o.NonTrivial = true
 		c.probe("permuted")
+	}
+	// tau3 / tau4: only the scope creations move, across Invokes too: all of
+	// them first, or each as late as its first use allows
+	for _, early := range []bool{true, false} {
+		th, perm, moved := moveScopes(hc, early)
+		if th == nil || !moved {
+			continue
+		}
+		tr := Execute(th)
+		o.Twins++
+		inv := make([]int, len(hc.Ops))
+		for j, i := range perm {
+			inv[i] = j
+		}
+		// a scope creation is always accepted; everything else is compared
+		if d := compareObs(prim[:limit], Observe(tr), func(i int) int {
+			if hc.Ops[i].Kind == OpScope {
+				return -1
+			}
+			return inv[i]
+		}, "wiring-on-success"); d != nil {
+			o.Viol = append(o.Viol, Violation{Props: []string{"C16", "C08"}, Class: "scope-creation-time-matters", Op: d.Op,
+				Detail: fmt.Sprintf("creating the scopes %s changes op %d (%s): %s", map[bool]string{true: "before everything else", false: "as late as possible"}[early], d.Op, hc.Ops[d.Op].Kind, d.Detail)})
+		} else if w := compareWiring(c.R, tr); w != "" && limit == len(hc.Ops) {
+			o.Viol = append(o.Viol, Violation{Props: []string{"C16", "C08"}, Class: "scope-creation-time-matters", Op: -1,
+				Detail: fmt.Sprintf("creating the scopes %s changes the wiring: %s", map[bool]string{true: "before everything else", false: "as late as possible"}[early], w)})
+		}
+		o.NonTrivial = true
+		c.probe(map[bool]string{true: "scopes_hoisted", false: "scopes_sunk"}[early])
 	}
 	// tau2: toggle DeferAcyclicVerification, on histories where no cycle is reported
 	if !anyCycle {
@@ -551,7 +652,7 @@ func init() {
 		}, Mix{Scope: 3, Provide: 12, Decorate: 3, Invoke: 4, VisStr: 0}),
 		Eval:       evalC16,
 		QuickRuns:  60_000,
-		WantProbes: []string{"permuted", "defer_toggled"},
+		WantProbes: []string{"permuted", "defer_toggled", "scopes_hoisted", "scopes_sunk"},
 	})
 	register(&ClassDef{
 		Prop: "C17",
